@@ -222,7 +222,7 @@ def run(tier):
         cases.append(common.Case("fix-" + nm, ["HOOK arena 1", "TBL %s %s" % (nm, common.hexbytes(txt))],
                                  ["CHK " + nm, "DUMP " + nm, "RAWDUMP " + nm], {"kind": "fixed", "name": nm, "text": txt}))
     # ---- generated tables
-    ngen = 110 if quick else 4000
+    ngen = 110 if quick else 16000
     kinds = ["onetoone", "f0", "multipass", "mixed", "extras", "extras"]
     for i in range(ngen):
         kind = kinds[i % len(kinds)]
@@ -247,7 +247,7 @@ def run(tier):
                 ("shipped", "en-us-g1.ctb", 450, 50), ("shipped", "es-g1.ctb", 350, 50)]
     else:
         seqs = [("empty", None, 600, -200), ("empty", None, 600, 5), ("empty", None, 600, 7)]
-        seqs += [("gen", k, rng.randint(450, 600), rng.choice([5, 10, 20])) for k in ["f0", "extras", "mixed", "multipass"] * 6]
+        seqs += [("gen", k, rng.randint(300, 600), rng.choice([5, 10, 20])) for k in ["f0", "extras", "mixed", "multipass"] * 20]
         seqs += [("shipped", tn, rng.randint(500, 600), 25) for tn in
                  ["en-us-g1.ctb", "en-us-g2.ctb", "es-g1.ctb", "fr-bfu-comp6.utb", "en-gb-g1.utb", "cs-g1.ctb",
                   "nl-NL-g0.utb", "en-us-comp6.ctb", "en-us-comp8.ctb", "unicode-braille.utb"]
@@ -313,7 +313,7 @@ def run(tier):
         common.run_cases(exe, [rawc], batch=1)
         f = rawc.out[0].split(" ")
         used0, size0 = int(f[3]), int(f[4])
-        for bi in range(2 if quick else 12):
+        for bi in range(2 if quick else 40):
             base = "bb%d.ctb" % bi
             ops = ["ADD %s %s" % (base, common.hexbytes("# compile without finalising"))]
             # a different phase per case: some fillers first
